@@ -662,7 +662,11 @@ def _sample_chains_worker(
             if isinstance(exception, AdaptationError):
                 iter_queue.put(None)
             else:
-                chain_outputs.append((chain_index, outputs))
+                # Also return state of (process local copy of) random number generator
+                # so parent process can continue the same stream in later stages
+                chain_outputs.append(
+                    (chain_index, outputs, chain_kwargs["rng"].bit_generator.state),
+                )
             # If returned handled exception was a manual interrupt put exception
             # on iteration queue to communicate to parent process and break
             if isinstance(exception, KeyboardInterrupt):
@@ -704,6 +708,7 @@ def _sample_chains_parallel(
     """Sample multiple chains in parallel over multiple processes."""
     n_iters = [len(it) for it in chain_iterators]
     n_chain = len(chain_iterators)
+    rngs = []
     with _ignore_sigint_manager() as manager, _pool_context_manager(n_process) as pool:
         results = None
         exception = None
@@ -724,6 +729,7 @@ def _sample_chains_parallel(
                 chain_kwargs["chain_traces"] = _memmaps_to_file_paths(
                     chain_kwargs["chain_traces"],
                 )
+                rngs.append(chain_kwargs["rng"])
                 chain_queue.put((c, n_iter, chain_kwargs))
             # Start n_process worker processes which each have access to the
             # shared queues, returning results asynchronously
@@ -794,7 +800,11 @@ def _sample_chains_parallel(
             indexed_chain_outputs = [r for res in results.get() for r in res]
             # Sort list by chain index (first element of tuple entries) and
             # then create new list with chain index removed
-            chain_outputs = [outp for i, outp in sorted(indexed_chain_outputs)]
+            indexed_chain_outputs.sort(key=lambda indexed_output: indexed_output[0])
+            chain_outputs = [outp for _, outp, _ in indexed_chain_outputs]
+            # Advance generators in this process to the states reached in the workers
+            for i, _, rng_state in indexed_chain_outputs:
+                rngs[i].bit_generator.state = rng_state
         else:
             chain_outputs = []
     return (*_collate_chain_outputs(chain_outputs), exception)
